@@ -268,9 +268,11 @@ fn trace(out: &mut Out, ctl: &mut Ctl, seed: u64, n_calls: usize, st: &mut Stats
             }
             if let Some((g, c, t, p)) = diff(&post, &tpost) {
                 verdicts.push((p, format!("glue-mismatch after {}: {} answers {} , the editor driven with the same calls gives {}", op.text(), g, c, t)));
-                // the same input for the check that owns the getter model's correspondence (records `capiget obs`)
-                if p != "C17" {
-                    verdicts.push(("C17", format!("getter-model-mismatch after {}: {} answers {} , the getter model over the editor driven with the same calls gives {}", op.text(), g, c, t)));
+                // the same input for the checks that own the getter model's correspondence (records `capiget obs`: C17, C06)
+                for q in ["C17", "C06"] {
+                    if p != q {
+                        verdicts.push((q, format!("getter-model-mismatch after {}: {} answers {} , the getter model over the editor driven with the same calls gives {}", op.text(), g, c, t)));
+                    }
                 }
             }
             if rng.chance(1, 6) {
